@@ -1186,6 +1186,11 @@ convert_to_object_bitfield(char *data, CFieldObject *cf)
     CTypeDescrObject *ct = cf->cf_type;
     /*READ(data, ct->ct_size)*/
 
+    if (cf->cf_bitsize == 8 * (int)sizeof(PY_LONG_LONG)) {
+        /* full-width field of a 64-bit type: same as a regular field
+           (the shifts below would be undefined) */
+        return convert_to_object(data, ct);
+    }
     if (ct->ct_flags & CT_PRIMITIVE_SIGNED) {
         unsigned PY_LONG_LONG value, valuemask, shiftforsign;
         PY_LONG_LONG result;
@@ -1815,8 +1820,15 @@ static int
 convert_from_object_bitfield(char *data, CFieldObject *cf, PyObject *init)
 {
     CTypeDescrObject *ct = cf->cf_type;
-    PY_LONG_LONG fmin, fmax, value = PyLong_AsLongLong(init);
+    PY_LONG_LONG fmin, fmax, value;
     unsigned PY_LONG_LONG rawfielddata, rawvalue, rawmask;
+
+    if (cf->cf_bitsize == 8 * (int)sizeof(PY_LONG_LONG)) {
+        /* full-width field of a 64-bit type: same as a regular field
+           (the shifts below would be undefined) */
+        return convert_from_object(data, ct, init);
+    }
+    value = PyLong_AsLongLong(init);
     if (value == -1 && PyErr_Occurred())
         return -1;
 
